@@ -975,11 +975,22 @@ class Lowerer:
             t += ind + 'if (__osmt_thrown) { %s }   /* exception propagates */\n' % self._zero_return()
         return pre + t
 
+    RAII = re.compile(r'^(std::)?(lock_guard|unique_lock|scoped_lock|shared_lock)<')
+
     def s_CompoundStmt(self, n, ind):
         out = ind + '{\n'
+        self._depth += 1
         for c in n.get('inner', []):
             out += self.stmt(c, ind + '  ')
+        # scope exit of RAII lock objects declared in this block (the only destructors the lowering keeps: a stub call)
+        for dep, var, ty in reversed([r for r in self._raii if r[0] == self._depth]):
+            out += ind + '  OSMT_SCOPE_EXIT_%s(&%s);\n' % (ty, var)
+        self._raii = [r for r in self._raii if r[0] != self._depth]
+        self._depth -= 1
         return out + ind + '}\n'
+
+    def _raii_exits(self):
+        return ''.join('OSMT_SCOPE_EXIT_%s(&%s); ' % (ty, var) for dep, var, ty in reversed(self._raii))
 
     def s_NullStmt(self, n, ind): return ind + ';\n'
 
@@ -1022,6 +1033,9 @@ class Lowerer:
             out = '%sOSMT_GS_DECL(%s);\n' % (ind, name)
             if init is not None: out += '%s%s;\n' % (ind, self._ghost_alloc(name, init))
             return out
+        if self.RAII.match(self._strip_cv(t['qualType'])):
+            self._raii.append((self._depth, name, sanitize(self._strip_cv(t['qualType']))))
+            self.meta.setdefault('raii', []).append({'fn': self._curname, 'var': name, 'type': t['qualType']})
         am = re.match(r'^(.*)\[(\d+)\]$', self._strip_cv(t.get('desugaredQualType') or t['qualType']))
         if am:
             # local array: declared as such; an implicit (trivial) element constructor is dropped, anything else is unsupported
@@ -1130,19 +1144,25 @@ class Lowerer:
 
     def s_ReturnStmt(self, n, ind):
         if not n.get('inner'):
-            return ind + 'return;\n'
+            return ind + '%sreturn;\n' % self._raii_exits()
         e = n['inner'][0]
+        ex = self._raii_exits()   # locks held by RAII objects are released after the return value has been computed
         if self._ret_is_ref:
+            if ex: return ind + '{ %s __rv = %s; %sreturn __rv; }\n' % (self._ret_c, self.addr(self.expr(e)), ex)
             return ind + 'return %s;\n' % self.addr(self.expr(e))
         if self._ret_is_rec:
-            return ind + '{ %s; return __ret; }\n' % self.construct_into(e, '__ret')
+            return ind + '{ %s; %sreturn __ret; }\n' % (self.construct_into(e, '__ret'), ex)
+        if ex: return ind + '{ %s __rv = %s; %sreturn __rv; }\n' % (self._ret_c, self.expr(e), ex)
         return ind + 'return %s;\n' % self.expr(e)
 
     def s_GotoStmt(self, n, ind):
+        if self._raii: raise Unsupported('goto while a lock object is in scope')
         return ind + 'goto %s;\n' % self._labels[n['targetLabelDeclId']]
     def s_LabelStmt(self, n, ind):
         return ind + '%s:\n' % self._labels[n['declId']] + self.stmt(n['inner'][0], ind)
-    def s_BreakStmt(self, n, ind): return ind + 'break;\n'
+    def s_BreakStmt(self, n, ind):
+        if self._raii and self._loopstack: raise Unsupported('break while a lock object is in scope')
+        return ind + 'break;\n'
     def s_ContinueStmt(self, n, ind):
         # `continue` == jump to the end of the loop body; written as a goto so that the loop-tail ghost hook is never skipped
         if not self._loopstack: raise Unsupported('continue outside a loop')
@@ -1234,7 +1254,7 @@ class Lowerer:
         self._curname = name
         self._tmpn = 0; self._tmps = []; self._locals = {}; self._localnames = set(['self', '__ret']); self._ghostbufs = {}
         self._curq = self.tu.qname.get(d['id'])
-        self._labels = {}; self._loopn = 0; self._hooks = set(); self._throws = False; self._loopstack = []
+        self._labels = {}; self._loopn = 0; self._hooks = set(); self._throws = False; self._loopstack = []; self._raii = []; self._depth = 0
         self._cur_field = None
         ret, ptypes = split_fn_type(d['type']['qualType'])
         kind = d['kind']
